@@ -207,6 +207,8 @@ func checkC15(c *Ctx) {
 							r.OK("C15.O1", k, p.Pos(x.Pos()), "the loop tests the index parity: keys and values are told apart")
 						case guardedBySequenceKind(info, fd, x):
 							r.OK("C15.O1", k, p.Pos(x.Pos()), "the loop runs only for sequence nodes (no keys)")
+						case !readsNodeText(info, x.Body):
+							r.OK("C15.O1", k, p.Pos(x.Pos()), "the loop walks the node tree without reading the text of any node (nothing can be taken for a key)")
 						default:
 							r.Bad("C15.O1", k, p.Pos(x.Pos()), "a loop over a YAML node's Content treats keys and values alike: a scalar value equal to a key name is taken for the key")
 						}
@@ -753,7 +755,9 @@ func textPassedThrough(p *Prog, fn *ssa.Function, prm *ssa.Parameter, depth int,
 				default:
 					// text produced on the way (file contents in the commands, test fixtures) is fine when it does not derive
 					// from a parameter of the caller: only edits of the caller's own text are the concern
-					if derivesFromParam(origin, 0) {
+					// (in the command-line front end a string parameter is a file name or an argument, not the text: reading the
+					// file it names is "text produced on the way"; what the commands hand to the library is decided by C18.W5)
+					if !strings.HasPrefix(RelPkg(caller), "cmd") && derivesFromParam(origin, 0) {
 						return false, FuncKey(caller) + " passes " + origin.String() + " (computed from its own text parameter) to " + FuncKey(fn)
 					}
 				}
@@ -1090,4 +1094,26 @@ func c15NoEarlyStop(c *Ctx) {
 		}
 	}
 	r.OK("C15.O8", "census", "", fmt.Sprintf("%d functions of the profile and YAML parsers evaluated: no list is filled by a loop that can stop early", n))
+}
+
+// readsNodeText: some expression under n reads the Value of a yaml.Node.
+func readsNodeText(info *types.Info, n ast.Node) bool {
+	found := false
+	ast.Inspect(n, func(m ast.Node) bool {
+		sel, ok := m.(*ast.SelectorExpr)
+		if !ok || sel.Sel.Name != "Value" {
+			return true
+		}
+		if tv, ok := info.Types[sel.X]; ok {
+			t := tv.Type
+			if pt, ok := t.Underlying().(*types.Pointer); ok {
+				t = pt.Elem()
+			}
+			if nt := namedOf(t); nt != nil && nt.Obj().Name() == "Node" && strings.HasSuffix(objPkgPath(nt.Obj()), "yaml.v3") {
+				found = true
+			}
+		}
+		return true
+	})
+	return found
 }
